@@ -246,6 +246,8 @@ class Engine(CallMixin):
                     ok = self.identical(st2, cur, unwrap(val), fi.node)
                 self.oblige(st2, f"alias.{path}", "ensures", ok, fi.node)
         self.check_list_cases(c, c.lists, env, st2, binds, result, fi.node, "")
+        if c.silent is not None and bool(c.silent(env)):
+            self.oblige(st2, "silent-generator-yields-nothing", "ensures", len(st2.out) == 0, fi.node)
         self.check_linear(st2, result, fi.node, "")
         self._check_frame(c, fi, st2, binds, old_heap, c.modifies)
 
